@@ -1461,6 +1461,30 @@ def run_views(max_len):
                         got = "refused"
                     if got != want:
                         fail(f"Python front end | {mname} | a {vname} of the words is not read like a contiguous copy", f"words {[hex(int(x)) for x in w]}: {got} instead of {want}")
+        # an argument array is a VALUE: writing to it after the call must not reach the object built from it
+        counters["py_arguments_overwritten"] = 0
+        def value_checks():
+            for kw in ({"perfect": False}, {"perfect": True}, {"lazy": True}):
+                for dt in (np.float64, np.float32):
+                    yield (f"Categorical(probabilities, {kw}, {dt.__name__})", np.array([0.2, 0.5, 0.3], dtype=dt), np.array([0.7, 0.1, 0.2], dtype=dt), lambda a, kw=kw: M.Categorical(a, **kw),
+                           lambda m: [int(x) for x in (lambda c: (c.encode_reverse(np.array([0, 1, 2, 1], dtype=np.int32), m), c.get_compressed())[1])(ANS())])
+            yield ("AnsCoder(words)", np.array([0x12345678, 0x9abcdef1], dtype=np.uint32), np.array([7, 9], dtype=np.uint32), lambda a: ANS(a), lambda c: [int(x) for x in c.get_compressed()])
+            yield ("AnsCoder(words, seal=True)", np.array([0x12345678, 0], dtype=np.uint32), np.array([7, 9], dtype=np.uint32), lambda a: ANS(a, True), lambda c: [int(x) for x in c.get_compressed()])
+            yield ("RangeDecoder(words)", np.array([0x12345678, 0x9abcdef1], dtype=np.uint32), np.array([7, 9], dtype=np.uint32), lambda a: RDEC(a), lambda c: [int(x) for x in c.clone().decode(cat, 3)])
+            yield ("ChainCoder(words, seal=True)", np.array([1, 2, 3, 4], dtype=np.uint32), np.array([9, 9, 9, 9], dtype=np.uint32), lambda a: CHAIN(a, False, True), lambda c: [[int(x) for x in t] for t in c.get_remainders()])
+            yield ("symbol.StackCoder(words)", np.array([5, 6], dtype=np.uint32), np.array([9, 9], dtype=np.uint32), lambda a: S.StackCoder(a), lambda c: [int(x) for x in c.get_compressed_and_bitrate()[0]])
+            yield ("symbol.huffman.EncoderHuffmanTree(probabilities)", np.array([0.1, 0.2, 0.7]), np.array([0.7, 0.2, 0.1]), lambda a: S.huffman.EncoderHuffmanTree(a),
+                   lambda b: [(lambda st: (st.encode_symbol(i, b), st.get_compressed_and_bitrate()[1])[1])(S.StackCoder()) for i in range(3)])
+        for name, arg, other, build, observe in value_checks():
+            n += 1; counters["py_arguments_overwritten"] += 1
+            try:
+                obj = build(arg); want = observe(build(arg.copy()))
+                arg[:] = other
+                got = observe(obj)
+                if got != want:
+                    fail(f"Python front end | {name} | the object still refers to the caller's array after the constructor returned", f"after overwriting the array: {got} instead of {want}")
+            except BaseException as e:
+                fail(f"Python front end | {name} | the object still refers to the caller's array after the constructor returned", f"after overwriting the array: {type(e).__name__}: {str(e)[:100]}")
         # symbol and parameter arrays
         means, stds = np.array([0.4, -1.2, 2.0, 0.0]), np.array([1.3, 0.5, 3.0, 0.8])
         data = np.array([0x12345678, 0x9abcdef0, 0x0fedcba9, 0x13579bdf, 0x2468ace0, 0xdeadbeef], dtype=np.uint32)
@@ -1677,6 +1701,14 @@ def run_representations(level):
             for dt in (np.float64, np.float32):
                 groups.append((f"Categorical({t}, {kw}, {dt.__name__})", [("in the constructor", M.Categorical(np.array(t, dtype=dt), **kw), None),
                     ("per symbol", M.Categorical(**kw), lambda k, t=t, dt=dt: (np.array([t] * k, dtype=dt),))], [0, 1, 2]))
+    for nsym in (7, 8, 9, 16, 17, 33):
+        for kind in range(3):
+            t = [[1.0 / (i + 3) for i in range(nsym)], [((i * 7919) % 13 + 1) * 0.013 for i in range(nsym)], [0.3 if i == 5 else 1e-3 * (i + 1) for i in range(nsym)]][kind]
+            for kw in ({"perfect": False}, {"perfect": True}, {"lazy": True}):
+                for dt in (np.float64, np.float32):
+                    groups.append((f"Categorical(table of {nsym} entries #{kind}, {kw}, {dt.__name__})", [("in the constructor", M.Categorical(np.array(t, dtype=dt), **kw), None),
+                        ("per symbol", M.Categorical(**kw), lambda k, t=t, dt=dt: (np.array([t] * k, dtype=dt),)),
+                        ("in the constructor, the table normalised by the caller in its own precision", M.Categorical(np.array(t, dtype=dt), **kw), None)], [0, nsym - 1, 5]))
     with Quiet():
         for gname, reps, syms in groups:
             counters["py_representation_groups"] += 1
@@ -1715,6 +1747,8 @@ def run_chain_locality(max_len):
     base = [M.Categorical(np.array(t), perfect=False) for t in ([0.1, 0.7, 0.1, 0.1], [0.2, 0.2, 0.1, 0.5], [0.2, 0.1, 0.4, 0.3], [0.25, 0.25, 0.25, 0.25], [0.4, 0.3, 0.2, 0.1])]
     alts = [M.Categorical(np.array([0.09, 0.71, 0.1, 0.1]), perfect=False), M.QuantizedGaussian(0, 3, 1.2, 0.9), M.Uniform(4)]
     K = len(base)
+    fam = M.Categorical(perfect=False)
+    rows = np.array([[0.1, 0.7, 0.1, 0.1], [0.2, 0.2, 0.1, 0.5], [0.2, 0.1, 0.4, 0.3], [0.25, 0.25, 0.25, 0.25], [0.4, 0.3, 0.2, 0.1], [0.25, 0.25, 0.25, 0.25]])
     def decode_all(w, models):
         """(symbols decoded one per call, index at which the coder ran out of data or None)"""
         c = CHAIN(w, False, True)
@@ -1728,7 +1762,7 @@ def run_chain_locality(max_len):
     with Quiet():
         # (24 bits per symbol + two words for the heads: 7 words hold all 5 positions, shorter strings run out of data)
         alphabet = [0x12345678, 0xffffffff, 0, 0x80000001][:max_len]
-        strings = list(word_strings(7, 7, alphabet)) + list(word_strings(3, 4, alphabet[:3]))
+        strings = list(word_strings(7, 7, alphabet)) + list(word_strings(3, 5, alphabet[:3]))
         for w in strings:
             counters["py_locality_data_strings"] += 1
             try:
@@ -1752,6 +1786,26 @@ def run_chain_locality(max_len):
                         fail("Python front end | ChainCoder.decode(family, parameter arrays) | differs from decoding one symbol per call with the same models", f"words {[hex(int(x)) for x in w]}: {got} vs {ref}")
             except BaseException as e:
                 fail("Python front end | ChainCoder.decode(family, parameter arrays) | raises where one symbol per call works", f"words {[hex(int(x)) for x in w]}: {type(e).__name__}: {str(e)[:100]}")
+            # how the decoding is split into calls, and which call form takes over, must not matter: the first j symbols
+            # one per call, the rest in ONE call in family form / with (model, amt) where the models allow it
+            for j in range(len(ref) + 1):
+                rest = len(ref) - j
+                if rest == 0:
+                    continue
+                n += 1; counters["py_locality_split_decodings"] = counters.get("py_locality_split_decodings", 0) + 1
+                try:
+                    c = CHAIN(w, False, True)
+                    got = [int(c.decode(base[i])) for i in range(j)] + [int(x) for x in c.decode(fam, rows[j:len(ref)])]
+                    if got != ref:
+                        fail("Python front end | ChainCoder locality | splitting the decoding into calls changes the symbols", f"words {[hex(int(x)) for x in w]}, {j} symbols one per call, then {rest} in family form: {got} vs {ref}")
+                    if stop is not None:
+                        try:
+                            c.decode(fam, rows[len(ref):len(ref) + 1])
+                            fail("Python front end | ChainCoder locality | splitting the decoding into calls changes when the coder runs out of data", f"words {[hex(int(x)) for x in w]}: a symbol beyond position {stop}")
+                        except AssertionError:
+                            pass
+                except BaseException as e:
+                    fail("Python front end | ChainCoder locality | splitting the decoding into calls changes when the coder runs out of data", f"words {[hex(int(x)) for x in w]}, {j} symbols one per call, then {rest} in family form: {type(e).__name__}: {str(e)[:80]} (one symbol per call decodes {ref})")
             for j in range(K):
                 for a in alts:
                     n += 1; counters["py_locality_model_replacements"] += 1
